@@ -1041,6 +1041,17 @@ func ruleMarshalGuard(r *Run) {
 							}
 							return
 						}
+						// the guard tests a TRANSFORMATION of the text (strings.TrimSpace(content) == ""):
+						// values the transformation maps to "empty" are non-empty text that is then not written
+						// (TrimSpace also removes U+00A0 and U+3000, which are not XML white space)
+						switch cn := calleeName(call); {
+						case strings.HasPrefix(cn, "strings.Trim"), cn == "strings.Fields", cn == "strings.ToLower", cn == "strings.ToUpper", strings.HasPrefix(cn, "strings.Replace"), strings.HasPrefix(cn, "unicode."):
+							for _, a := range call.Call.Args {
+								if ch, _ := addrChain(stripLoadAddr(a)); len(ch) > 0 && isStringType(a.Type()) {
+									bad = fmt.Sprintf("%s of the field says so (the test is made on a transformed copy of the text, not on the text)", cn)
+								}
+							}
+						}
 					}
 					if ins, ok := v.(ssa.Instruction); ok {
 						for _, op := range ins.Operands(nil) {
